@@ -250,3 +250,90 @@ package gnet
 //@ func (cm *connMatrix) getConn(fd int) *conn
 //@   requires cm != nil
 //@   ensures res == reg(cm, fd)
+
+// ---------------------------------------------------------------------------------------------
+// The per-loop protocol (C01, C02, C04, C07, C18): ghost state and invariants
+//
+// Ghost per connection: cons (bytes consumed by the handler), acc (bytes accepted for sending, adata[c] their text),
+// phase (0 new, 1 open, 2 closed), unflushed (data appended by ReadFrom and not yet flushed).
+// Ghost per descriptor (contracts/trusted/unix.spec): kdata/kpos, sdata/spos, owner, polled, armed.
+// nopen / nclose count the OnOpen / OnClose callbacks delivered for a connection.
+//@ import netpoll "github.com/panjf2000/gnet/v2/pkg/netpoll"
+//@ ghost field (c *conn) acc int
+//@ ghost field (c *conn) phase int
+//@ ghost field (c *conn) unflushed bool
+//@ ghost var adata map[Ref]map[int]int
+//@ ghost var nopen map[Ref]int
+//@ ghost var nclose map[Ref]int
+//
+//@ pred elwf(el *eventloop) := el != nil && el.engine != nil && el.engine.opts != nil && el.poller != nil && el.eventHandler != nil &&
+//@     cmwf(el.connections) && len(el.buffer) > 0
+//@ pure isET(el *eventloop) := el.engine.opts.EdgeTriggeredIO
+//@ pure ocnt(c *conn) := elastic.bcnt(c.outboundBuffer)
+//@ pure oat(c *conn, i int) := elastic.bat(c.outboundBuffer, i)
+// OI: outbound invariant — what is buffered is exactly the accepted-but-unsent part, the kernel got the accepted prefix
+// in order, and in level-triggered mode write interest is armed while flushed data is pending.
+//@ pred OI(c *conn) := elastic.bwf(c.outboundBuffer) && c.acc >= 0 && spos[c.fd] >= 0 && c.acc - spos[c.fd] == ocnt(c) &&
+//@     (forall i :: 0 <= i && i < ocnt(c) ==> oat(c, i) == adata[c][spos[c.fd] + i]) &&
+//@     (forall i :: 0 <= i && i < spos[c.fd] ==> sdata[c.fd][i] == adata[c][i]) &&
+//@     (!isET(c.loop) && ocnt(c) > 0 && !c.unflushed ==> armed[c.fd])
+// addrok: the address interfaces never hold typed nil pointers; ringsep: the two rings are different objects.
+//@ pred addrok(c *conn) := (typeis(c.localAddr, "*net.TCPAddr") || typeis(c.localAddr, "*net.UDPAddr") ==> ref(c.localAddr) != nil) &&
+//@     (typeis(c.remoteAddr, "*net.TCPAddr") || typeis(c.remoteAddr, "*net.UDPAddr") ==> ref(c.remoteAddr) != nil)
+//@ pred ringsep(c *conn) := c.inboundBuffer.rb == nil || c.inboundBuffer.rb != c.outboundBuffer.ringBuffer.rb
+//@ pred CIcore(c *conn) := c != nil && c.loop != nil && elwf(c.loop) && !c.isDatagram && c.fd >= 0 && owner[c.fd] != nil &&
+//@     c.pollAttachment.FD == c.fd && SI(c) && OI(c) && addrok(c) && ringsep(c)
+// CI: what holds for every open stream connection whenever control is outside the loop-side functions.
+//@ pred CI(c *conn) := CIcore(c) && c.opened && c.phase == 1 && polled[c.fd] && reg(c.loop.connections, c.fd) == c &&
+//@     nopen[c] == 1 && nclose[c] == 0
+// closing: the state in which OnClose runs (already unregistered, descriptor still open).
+//@ pred closing(c *conn, l *eventloop, fd int) := c.loop == l && c.fd == fd && CIcore(c) && c.opened && c.phase == 1 &&
+//@     reg(l.connections, fd) == nil && nopen[c] == 1
+// aftercb: after a callback the connection is still open with all its invariants, or has been closed exactly once.
+//@ pred aftercb(c *conn, l *eventloop, fd int) := c.loop == l && c.fd == fd && elwf(l) &&
+//@     (c.opened ==> CI(c)) && (!c.opened ==> c.phase == 2 && nclose[c] == 1 && reg(l.connections, fd) != c)
+//
+// release: the connection is marked closed and gives its buffers back.
+//@ func (c *conn) release()
+//@   requires c != nil && c.loop != nil && addrok(c) && (c.isDatagram || (iwf(c) && elastic.bwf(c.outboundBuffer) && ringsep(c)))
+//@   modifies c.opened, c.isEOF, c.ctx, c.safeCtx.*, c.buffer, c.localAddr, c.remoteAddr, c.remote, c.phase
+//@   modifies c.inboundBuffer.rb, c.inboundBuffer.rb.r if c.inboundBuffer.rb != nil, c.inboundBuffer.rb.w if c.inboundBuffer.rb != nil, c.inboundBuffer.rb.isEmpty if c.inboundBuffer.rb != nil
+//@   modifies c.outboundBuffer.ringBuffer.rb, c.outboundBuffer.ringBuffer.rb.r if c.outboundBuffer.ringBuffer.rb != nil, c.outboundBuffer.ringBuffer.rb.w if c.outboundBuffer.ringBuffer.rb != nil, c.outboundBuffer.ringBuffer.rb.isEmpty if c.outboundBuffer.ringBuffer.rb != nil
+//@   modifies c.outboundBuffer.listBuffer.*, lnodes[c.outboundBuffer.listBuffer], lpoff[c.outboundBuffer.listBuffer], lview[c.outboundBuffer.listBuffer], npos[c.outboundBuffer.listBuffer], nown, lbufs[c.outboundBuffer.listBuffer]
+//@   modifies-each x *linkedlist.node where linkedlist.mine(c.outboundBuffer.listBuffer, x) :: buf, next
+//@   ghostdef c.phase := 2
+//@   ensures !c.opened && c.phase == 2 && c.fd == old(c.fd) && c.loop == old(c.loop)
+// opening: the state in which OnOpen runs (registered, marked opened, nothing consumed or sent yet).
+//@ pred opening(c *conn) := CIcore(c) && c.opened && c.phase == 0 && polled[c.fd] && reg(c.loop.connections, c.fd) == c
+//
+// close: idempotent; acts only on a connection that is opened and still registered, delivers its single OnClose with the
+// given error after unregistering it, flushes, releases, and closes the descriptor exactly once.
+//@ func (el *eventloop) close(c *conn, err error) (rerr error)
+//@   requires elwf(el) && c != nil && c.loop == el
+//@   requires c.opened && reg(el.connections, c.fd) != nil ==> CI(c)
+//@   modifies-all-except eventloop, engine, Options, netpoll.Poller, listener, map[int]*listener, ghost:kdata, ghost:kpos, ghost:nopen if c.opened && reg(el.connections, c.fd) != nil
+//@   ensures c.loop == el && c.fd == old(c.fd) && elwf(el)
+//@   ensures old(c.opened && reg(el.connections, c.fd) != nil) ==> !c.opened && c.phase == 2 && nclose[c] == 1 && owner[c.fd] == nil && reg(el.connections, c.fd) != c
+//@   ensures !old(c.opened && reg(el.connections, c.fd) != nil) ==> rerr == nil
+//@   loop 1:
+//@     invariant el == el$0 && c == c$0 && c.loop == el && c.fd == old(c.fd) && elwf(el) && c.opened && c.phase == 1 && nclose[c] == 1 &&
+//@          owner[c.fd] != nil && reg(el.connections, c.fd) == nil && iwf(c) && elastic.bwf(c.outboundBuffer) && addrok(c) && ringsep(c) && !c.isDatagram
+//
+//@ func (el *eventloop) handleAction(c *conn, action Action) (err error)
+//@   requires elwf(el) && c != nil && c.loop == el
+//@   requires c.opened && reg(el.connections, c.fd) != nil ==> CI(c)
+//@   modifies-all-except eventloop, engine, Options, netpoll.Poller, listener, map[int]*listener, ghost:kdata, ghost:kpos, ghost:nopen if action == Close && c.opened && reg(el.connections, c.fd) != nil
+//@   ensures c.loop == el && c.fd == old(c.fd) && elwf(el)
+//@   ensures action == Shutdown ==> err == errorx.ErrEngineShutdown
+//@   ensures action == Close && old(c.opened && reg(el.connections, c.fd) != nil) ==> !c.opened && c.phase == 2 && nclose[c] == 1 && owner[c.fd] == nil
+//@   ensures action != Close && action != Shutdown ==> err == nil
+//@   ensures action != Close && c.opened ==> (old(CI(c)) ==> CI(c))
+//
+// wake: OnTraffic for an open, registered connection; nothing for a stale one.
+//@ func (el *eventloop) wake(c *conn) (err error)
+//@   requires elwf(el) && c != nil && c.loop == el
+//@   requires c.opened && reg(el.connections, c.fd) != nil ==> CI(c)
+//@   modifies-all-except eventloop, engine, Options, netpoll.Poller, listener, map[int]*listener, ghost:kdata, ghost:kpos, ghost:nopen if c.opened && reg(el.connections, c.fd) != nil
+//@   ensures c.loop == el && c.fd == old(c.fd) && elwf(el)
+//@   ensures !old(c.opened && reg(el.connections, c.fd) != nil) ==> err == nil
+//@   ensures c.opened ==> CI(c) || !old(c.opened && reg(el.connections, c.fd) != nil)
